@@ -307,6 +307,49 @@ def getf(mod, fname):
     return getattr(mod, fname)
 
 
+def _raws(o, depth=0):
+    if isinstance(o, numpy.ndarray):
+        return [numpy.ndarray.view(o, numpy.ndarray)]
+    if isinstance(o, (list, tuple)) and depth < 3:
+        return [r for x in o for r in _raws(x, depth + 1)]
+    return []
+
+
+def _analog(praw):
+    item = praw.dtype.itemsize
+    if not item or any(st % item for st in praw.strides):
+        return None
+    est = [st // item for st in praw.strides]
+    lo = sum(min(0, st * (n - 1)) for st, n in zip(est, praw.shape))
+    hi = sum(max(0, st * (n - 1)) for st, n in zip(est, praw.shape))
+    base = numpy.arange(hi - lo + 1, dtype="i8")
+    a = numpy.lib.stride_tricks.as_strided(base[-lo:], shape=praw.shape, strides=[8 * st for st in est], writeable=True)
+    if not praw.flags.writeable:
+        a.flags.writeable = False
+    return a
+
+
+def share_rule(R, label, fname, f_numpy, f_impl, p, tags, sub):
+    """like numpy also in WHOSE memory the result is: where numpy hands out an independent array (tile, repeat,
+    concatenate, copy, astype, flatten, fancy indexing ...) the result must not share memory with the argument - a
+    caller who goes on to write to one of the two would change the other.  (Where numpy returns a view, a copy is fine.)"""
+    praw = numpy.ndarray.view(p, numpy.ndarray)
+    a = _analog(praw)      # plain array with the polynomial's layout (contiguity, order, strides in elements)
+    if a is None:
+        return
+    try:
+        rn = f_numpy(a)
+        rp = f_impl()
+    except Exception:  # noqa: BLE001
+        return
+    R.tr()
+    if any(numpy.shares_memory(r, a) for r in _raws(rn)):
+        return
+    if any(numpy.shares_memory(r, praw) for r in _raws(rp)):
+        R.fail(fname, "shares-memory", f"{label}: the result shares memory with the argument; numpy's result of the same call does not",
+               tags=list(tags) + [f"fn={fname}", "shares-memory"], sub=sub)
+
+
 # ---- cases ---------------------------------------------------------------------------------------
 UNARY24 = None
 
@@ -376,11 +419,15 @@ def run_case(case, R):
                     judge_call(R, f"{label} on {shape}/{var}", fname, spelling,
                                lambda: g(getf(mod, fname), p), lambda: m.map(lambda c: g(getf(numpy, fname), c)),
                                tags, names, dtype, {"k": "one", "s": list(shape), "v": var, "label": label})
+                    share_rule(R, f"{label} on {shape}/{var} [{spelling}]", fname, lambda a: g(getf(numpy, fname), a), lambda: g(getf(mod, fname), p),
+                               p, tags, {"k": "one", "s": list(shape), "v": var, "label": label})
             for label, g in method_calls(shape):
                 if g is None:
                     continue
                 judge_call(R, f"method {label} on {shape}/{var}", "method:" + label.split("(")[0], "method",
                            lambda: g(p), lambda: m.map(lambda c: g(c)), tags, names, dtype,
+                           {"k": "one", "s": list(shape), "v": var, "label": "method " + label})
+                share_rule(R, f"method {label} on {shape}/{var}", "method:" + label.split("(")[0], g, lambda: g(p), p, tags,
                            {"k": "one", "s": list(shape), "v": var, "label": "method " + label})
             R.sample({"input": str(p).replace("\n", " ")[:200], "variant": var, "functions": "all unary shape functions"})
         elif k == "one":
@@ -390,9 +437,11 @@ def run_case(case, R):
                     for spelling, mod in (("numpoly", numpoly), ("numpy", numpy)):
                         judge_call(R, lab, fname, spelling, lambda: g(getf(mod, fname), p),
                                    lambda: m.map(lambda c: g(getf(numpy, fname), c)), tags, names, dtype, None)
+                        share_rule(R, f"{lab} [{spelling}]", fname, lambda a: g(getf(numpy, fname), a), lambda: g(getf(mod, fname), p), p, tags, None)
             for lab, g in method_calls(shape):
                 if g is not None and "method " + lab == label:
                     judge_call(R, lab, "method", "method", lambda: g(p), lambda: m.map(lambda c: g(c)), tags, names, dtype, None)
+                    share_rule(R, lab, "method", g, lambda: g(p), p, tags, None)
             for idx in index_exprs(shape):
                 if "index " + idx_label(idx) == label:
                     judge_call(R, label, "getitem", "operator", lambda: p[unwrap(idx)],
